@@ -3,7 +3,7 @@
 import json, os, re
 
 def key(d):
-    m = re.match(r"C(\d+)(r[234567])?-m(\d+)", d)
+    m = re.match(r"C(\d+)(r[2345678])?-m(\d+)", d)
     return (int(m.group(1)), int(m.group(2)[1]) if m.group(2) else 0, int(m.group(3)))
 
 rows = []
